@@ -1,4 +1,5 @@
 """C02 Boolean connectives, ITE, constants: terminal cases + wiring"""
+import eunits
 import ewrap
 import kinds
 import tables
@@ -24,4 +25,7 @@ def run(ctx):
     kinds.wrappers(ctx, F, "zbdd", [kinds.BF], 20)
     n = ewrap.check_trait_defaults(ctx, F)
     ctx.floor("E-WRAP.default", "default methods with an _edge sibling", n, 60)
+    ctx.explain("E-UNITS: no variable number meets a level number (both are u32) in the rules crate(s).")
+    nfn, _ = eunits.run(ctx, F, crates=("oxidd_rules_bdd", "oxidd_rules_zbdd"))
+    ctx.floor("E-UNITS", "function bodies analysed", nfn, 100)
     ctx.not_decided = "the recursive step (Shannon expansion, cofactor collection), eval, cofactors"
